@@ -18,10 +18,10 @@ def run(ctx):
     for rep in range(reps):
         for k, body in enumerate(nt.exhaustive_group_tracks(r)):
             cases.append({"id": f"C02-g{rep}-{k}", "res": 192, "body": body})
-    _notes._judge(ctx, cases, "C02", "all 32 combinations x flags x rotations")
+    _notes._judge(ctx, cases, "C02", "all 32 combinations x flags x rotations", max_skip_ratio=0.0)
     # TRACE: seeded wide-domain tracks
     cases = _notes.seeded_tracks(ctx, "C02", ctx.pick(400, 6000), unit_gap_p=0.3)
-    _notes._judge(ctx, cases, "C02", "seeded tracks")
+    _notes._judge(ctx, cases, "C02", "seeded tracks", max_skip_ratio=0.01)
     ctx.assumptions += [
         "well-formed section: N lines in tick order, one line per index per tick, every tick has a lane or open line",
         "the exhaustive NoteTrack scope is bounded (see tlc_runs); beyond it coverage is seeded",
